@@ -19,6 +19,7 @@ import z3
 
 from contracts import merge_contract as mc
 from hv import core, extract, framevc as fv, pyvc
+from hv import history
 from hv.driver import Bounded, Spec
 from hv.pyvc import to_z3
 
@@ -268,7 +269,7 @@ SPEC = Spec(
     prop=PROP, level="proof",
     functions=[(UT, "merge_kernel_intervals"), (BA, "BreakdownAnalysis._get_idle_time_for_kernels"), (BA, "BreakdownAnalysis.get_temporal_breakdown.idle_time_per_rank"),
                (BA, "BreakdownAnalysis.get_temporal_breakdown")],
-    units=units, bounded=[Bounded("breakdown_vs_measure", bounded)],
+    units=units, bounded=[Bounded("breakdown_vs_measure", bounded), Bounded("history_independence", history.stage(PROP, "temporal", "gen"))],
     trusted=["Lean lemmas L1 (sum of lengths of sorted separated half-open intervals = Lebesgue measure of their union) and L2 (monotonicity, <= extent), lean/HtaLemmas",
              "fold meta-lemma: a ghost accumulator updated by `or` / `max` over the rows equals the finite disjunction / maximum over the prefix",
              "get_kernel_type is an uninterpreted function of the decoded name (regex semantics not interpreted)",
